@@ -163,7 +163,7 @@ def run(tier, seed, replay=None):
         "per_type_obligations": {"baseline": len(base), "discharged_now": len(set(base) & set(proved)), "lost": lost,
                                  "newly_discharged_not_in_baseline": sorted(set(proved) - set(base))},
         "per_version_obligations": {"baseline": base_pv, "now": now_pv},
-        "unproved": ["write idempotence is proved for the loop-free fragment only (C02_write_idem / wchk): block types whose Sync contains a loop (vectors, reference arrays) or a statement outside the fragment are checked on the model and on the implementation for every generated instance, not proved: " + ",".join(sorted(set(info["blocks"]) - set(proved))),
+        "unproved": ["write idempotence (C02_write_idem / kchk) is proved for the block types the static write-once discipline accepts; the following are checked on the model and on the implementation for every generated instance, not proved: " + ",".join(sorted(set(info["blocks"]) - set(proved))),
                      "the file-level pipeline (FinalizeData, Optimize, sort) is explored on the samples, not proved"],
         "evaluations": stats["block_instances"] + stats["sample_save3"],
         "distinct_nontrivial": stats["block_instances"] + stats["sample_save3"],
